@@ -37,7 +37,16 @@ def inherit_values(tag):
 
 
 def sym_arg(n, spelling):
-    return "C%d" % n if spelling == 0 else ("c%d" % n if spelling == 1 else int(n))
+    """'Cn', 'cn' or a number: Python int, float (documented: "int/float") and numpy integer."""
+    if spelling == 0:
+        return "C%d" % n
+    if spelling == 1:
+        return "c%d" % n
+    if spelling == 2:
+        return int(n)
+    if spelling == 3:
+        return float(n)
+    return np.int64(n)
 
 
 # ---- L2: exact cases -----------------------------------------------------------------------------------------
@@ -61,7 +70,7 @@ def run_exact(ctx, rec, variant):
     motl = cm.Motl(motlutil.df_from_cols(cols))
     off = [v / U for v in case["off"]]
     arg = off if variant % 2 else np.array(off)
-    res, err = core.call_guarded(motl.split_in_asymmetric_subunits, sym_arg(n, variant % 3), arg)
+    res, err = core.call_guarded(motl.split_in_asymmetric_subunits, sym_arg(n, variant % 5), arg)
     ctx.ran(rcase)
     if err is not None:
         ctx.fail("call_raises", "n=%d: %s" % (n, err), rcase, sig)
@@ -255,7 +264,7 @@ def run(ctx):
     ctx.assumptions += [
         "the subunit index may start at 0 or 1 (k-th = R.Rz(360(k-1)/n) or R.Rz(360k/n)); both describe the same orbit",
         "projection alpha (own Euler->matrix routine, lattice snap 1e-9, residuals x1e7 with tolerance 1e-6) is trusted",
-        "input subtomogram numbers are unique (unsorted, non-consecutive); the symmetry number is passed as a Python int",
+        "input subtomogram numbers are unique (unsorted, non-consecutive); the symmetry number is passed as Python int, float or numpy.int64",
         "at exact half-voxel ties either integral neighbour is accepted",
     ]
     only = getattr(ctx, "only", None)
@@ -279,7 +288,7 @@ def run(ctx):
         cases = []
         idx = 0
         for n in range(1, nmax + 1):
-            for spelling in range(3):
+            for spelling in range(5):
                 for rep in range(ctx.pick(1, 8)):
                     idx += 1
                     if rep == 0 and (n + spelling) % 7 == 0:
@@ -287,6 +296,6 @@ def run(ctx):
                     else:
                         npart = rng.randint(1, 12)
                     cases.append(gen_float_case(rng, idx, n, spelling, npart))
-        ctx.exhaustive["L3_every_n_1_%d_x_3_spellings" % nmax] = True
+        ctx.exhaustive["L3_every_n_1_%d_x_5_spellings" % nmax] = True
         ctx.extra["float_cases"] = len(cases)
         run_float(ctx, cases)
